@@ -74,7 +74,7 @@ def r1(db, rep):
                    f"{f.id}: compares code units with Iterator::zip at {f.loc(b)} without first comparing lengths — a string equals "
                    f"any of its prefixes / extensions (`\"ab\\u{{3c0}}\" == \"ab\"`)", loc=f.loc(b))
     rep.floor("R1", "PartialEq::eq impls in boa_string", neq, 12)
-    rep.floor("R1", "zip comparisons", n, 4)
+    rep.floor("R1", "zip comparisons", n, 3)
 
 
 def r2(db, rep):
